@@ -20,6 +20,8 @@ import ext_layer            # extensibility layer (lib/ext_layer.py, notes/desig
 import c03_tagmap as TM
 import c03_oerpos as P
 import c03_regions as RG
+import c03_xval as XV
+import c05x_util as X5
 
 F_CHAIN = "C03-ber-chain-mixed-lengths"
 
@@ -355,7 +357,13 @@ def main(tier):
     sm = U.string_module()
     mt1, mt2 = TM.modules(tier)
     mo5 = RG.wide_module()
-    build_modules([sm, mt1, mt2, mo5], tag="c03x", moddrv_extra=os.path.join(HARNESS, "moddrv_c03.inc"))
+    # value-level XER variants (lib/c03_xval.py): MS5 of lib/c05x_util.py and the directed module MX6
+    ms5, mx6 = X5.string_module(), XV.module()
+    build_modules([sm, mt1, mt2, mo5, ms5, mx6], tag="c03x", moddrv_extra=os.path.join(HARNESS, "moddrv_c03.inc"))
+    for m in (ms5, mx6):
+        if not m.get("exe"):
+            run.violation("build:module", {"what": "a hand-written module of string / number types was rejected or its code does not compile", "module": m["text"],
+                                           "asn1c_out": m.get("asn1c_out", "")[-1200:], "build_log": m.get("build_log", "")[-1200:]})
     mods += [sm, mt1]
     sc = []
     if sm.get("exe"):
@@ -401,7 +409,10 @@ def main(tier):
     RG.wide_oer_part(run, mo5, rng, tier)
     log("C03: oer %.1fs" % (time.time() - t0)); t0 = time.time()
     xer_part(run, mods, cases, rng, tier)
-    log("C03: xer %.1fs" % (time.time() - t0))
+    log("C03: xer %.1fs" % (time.time() - t0)); t0 = time.time()
+    # a stream of its own: the corpus of the earlier rounds stays what it was
+    XV.run_part(run, model, ms5, mx6, Rng(run.seed * 1000003 + 36), tier, run_mod, run_lines)
+    log("C03: xer value-level variants %.1fs" % (time.time() - t0))
     # the ext layer builds its modules and values itself; they are captured here for the OER determinant sweep
     captured = {}
     orig_build, orig_encode = ext_layer.build, ext_layer.model_encode
